@@ -332,6 +332,12 @@ def atleast_2d(*arys):
     return res[0] if len(res) == 1 else tuple(res)
 
 
+def append(arr, values, axis=None):
+    if axis is None:
+        return concatenate([asarray(arr).flatten(), asarray(values).flatten()])
+    return concatenate([asarray(arr), asarray(values)], axis=axis)
+
+
 def concatenate(arrs, axis=0, **kw):
     arrs = [asarray(a) for a in arrs]
     if not arrs:
